@@ -193,11 +193,8 @@ fn lib_path(path: &Path, load_path: Option<&Path>, fmt: Fmt) -> Lib {
 }
 
 fn panic_site(p: &str) -> String {
-    let mut it = p.split(':');
-    match (it.next(), it.next()) {
-        (Some(f), Some(l)) => format!("{f}:{l}"),
-        _ => p.to_string(),
-    }
+    // file + normalised message (no line number): survives unrelated edits
+    vp::rs::panic_site(p)
 }
 
 fn show(b: &[u8]) -> String {
